@@ -52,7 +52,11 @@ def run(ctx):
         elif line.startswith("F "):
             p = line.split(" ", 3)
             flines[p[1]] = line.rstrip("\n")
-    rc, mout = sh("%s < %s" % (driver, ops), timeout=3000)
+    # which variant of the included-range override does /repo have? (see fixes/C04-range-override-in-padding.diff)
+    src = open(os.path.join(os.environ.get("VERIF_REPO", "/repo"), "lib/src/get_changed_ranges.c")).read()
+    variant = "--override-compared-end" if "iterator_compared_end_byte" in src else ""
+    ctx.coverage["override_variant"] = variant or "as-is"
+    rc, mout = sh("%s %s < %s" % (driver, variant, ops), timeout=3000)
     rc2, cout = sh([cunit, ops], timeout=3000)
     if rc2 != 0:
         ctx.oblige("run:cunit_c04", False, cout[-500:])
@@ -109,7 +113,7 @@ def run(ctx):
         if kv["judge"] != "ok":
             judge_bad += 1
             ctx.violation("judge", "C04 judge failed on the implementation's changed ranges: " + kv["judge"], payload,
-                          fingerprint={"lang": lang, "clause": kv["judge"][:30]})
+                          fingerprint={"lang": lang, "clause": kv["judge"][:30], "cause": kv.get("cause", "other")})
         elif kv["corr"] != "ok":
             corr_bad += 1
             payload["correspondence"] = "TsVerif.C04.treeChangedRanges vs lib/src/tree.c:ts_tree_get_changed_ranges"
